@@ -1442,7 +1442,7 @@ struct const_subarray : array_types<T, D, ElementPtr, Layout> {
 		// vvv TODO(correaa) should be size() here?
 		// NOLINTNEXTLINE(cppcoreguidelines-pro-bounds-array-to-pointer-decay,hicpp-no-array-decay) normal in a constexpr function
 		BOOST_MULTI_ASSERT( (this->layout().nelems() % n) == 0);  // if you get an assertion here it means that you are partitioning an array with an incommunsurate partition
-		multi::layout_t<D+1> new_layout{this->layout(), this->layout().nelems()/n, 0, this->layout().nelems()};
+		multi::layout_t<D+1> new_layout{this->layout(), (this->layout().nelems()/n != 0)?this->layout().nelems()/n:1, 0, this->layout().nelems()};  // stride 1 for an empty view, as the layout constructor does
 		new_layout.sub().nelems() /= n;
 		return subarray<T, D+1, element_ptr>(new_layout, types::base_);
 	}
@@ -3033,7 +3033,7 @@ struct const_subarray<T, 1, ElementPtr, Layout>  // NOLINT(fuchsia-multiple-inhe
 	BOOST_MULTI_HD constexpr auto partitioned_aux_(size_type size) const {
 		BOOST_MULTI_ASSERT( size != 0 );
 		BOOST_MULTI_ASSERT( (this->layout().nelems() % size) == 0 );  // TODO(correaa) remove assert? truncate left over? (like mathematica) // NOLINT(cppcoreguidelines-pro-bounds-array-to-pointer-decay,hicpp-no-array-decay) : normal in a constexpr function
-		multi::layout_t<2> new_layout{this->layout(), this->layout().nelems()/size, 0, this->layout().nelems()};
+		multi::layout_t<2> new_layout{this->layout(), (this->layout().nelems()/size != 0)?this->layout().nelems()/size:1, 0, this->layout().nelems()};  // stride 1 for an empty view, as the layout constructor does
 		new_layout.sub().nelems() /= size;  // TODO(correaa) : don't use mutation
 		return subarray<T, 2, element_ptr>(new_layout, types::base_);
 	}
